@@ -165,6 +165,11 @@ int main(int argc, char **argv) {
                 k0 = hash128(sys_key(s));
             }
             max_branch = std::max(max_branch, ops.size());
+            // C11 probe alphabet: calls that left the state unchanged (rejected / deduplicated) and up to one accepted call per operation kind,
+            // for the history-sensitivity check below
+            const bool c11_probe = A.prop == "C11" && (alpha & A_ADDCV);
+            std::vector<Op> noop_ops;
+            std::vector<std::pair<Op, Key128>> acc_ops;
             for (auto &o : ops) {
                 Hist h2 = h;
                 h2.push_back(o);
@@ -178,6 +183,10 @@ int main(int argc, char **argv) {
                 ++transitions;
                 if (vs.empty()) {
                     Key128 k = hash128(sys_key(s));
+                    if (c11_probe) {
+                        if (k == k0) noop_ops.push_back(o);
+                        else { bool have = false; for (auto &a : acc_ops) if (a.first.k == o.k) have = true; if (!have) acc_ops.push_back({o, k}); }
+                    }
                     if (seen.insert(k).second) {
                         ++states;
                         g_phase = "state-check";
@@ -195,6 +204,35 @@ int main(int argc, char **argv) {
                     if (!next.empty() && hist_str(next.back()) == hist_str(h2)) next.pop_back();
                 }
                 if (A.max_states && states >= A.max_states) { capped = true; break; }
+            }
+            // "a rejected or deduplicated call leaves every observable aspect of the mesh unchanged" includes later behaviour: after ALL the
+            // no-op calls of this state on one object, an accepted call must give exactly the state it gives on a fresh object
+            // (the canonical key cannot see scratch state that a rejected call may leave behind)
+            if (c11_probe && found.empty() && !capped && !noop_ops.empty()) {
+                for (auto &a : acc_ops) {
+                    g_phase = "c11-history";
+                    Sys s(A.cfg);
+                    rebuild(h, s);
+                    for (auto &r : noop_ops) { exec_op(s, r); s.label_new(); }
+                    exec_op(s, a.first); s.label_new();
+                    transitions += noop_ops.size() + 1;
+                    st.hit("c11-history-sensitivity");
+                    if (hash128(sys_key(s)) == a.second) continue;
+                    // shrink: a single no-op call that already changes the outcome, else report the whole sequence
+                    Hist bad = h;
+                    bool single = false;
+                    for (auto &r : noop_ops) {
+                        Sys t(A.cfg);
+                        rebuild(h, t);
+                        exec_op(t, r); t.label_new();
+                        exec_op(t, a.first); t.label_new();
+                        if (!(hash128(sys_key(t)) == a.second)) { bad.push_back(r); single = true; break; }
+                    }
+                    if (!single) for (auto &r : noop_ops) bad.push_back(r);
+                    bad.push_back(a.first);
+                    found.push_back({bad, {std::string("c11:history-sensitive:") + OPNAMES[a.first.k], a.first.str() + " gives a different result after rejected/deduplicated calls on the same mesh than on a fresh one"}});
+                    break;
+                }
             }
             if (A.deadline > 0 && elapsed() > A.deadline) { capped = true; break; }
             if (capped) break;
